@@ -67,3 +67,32 @@ pub proof fn lemma_sha_cost_mono(items: Seq<Tree>, k: int, base: nat, per_arg: n
         assert(items.take(k + 1).drop_last() =~= items.take(k));
     }
 }
+
+/// (sha256 1 v) for a small v: what the two-item list hashes and costs
+pub proof fn lemma_sha_two_small(items: Seq<Tree>, val: u32, nb: nat, pa: nat, pb: nat)
+    requires
+        items.len() == 2,
+        items[0] == Tree::Atom(small_bytes(1)),
+        items[1] == Tree::Atom(small_bytes(val)),
+        val < 0x80,
+    ensures
+        items_cat(items) =~= seq![1u8] + small_bytes(val),
+        sha_cost(items, nb, pa, pb) == nb + 2 * pa + pb * (1 + small_bytes(val).len()),
+        all_atom_items(items),
+        small_bytes(val).len() == (if val > 0 { 1nat } else { 0nat }),
+{
+    assert(small_bytes(1) =~= seq![1u8]) by {
+        assert(1u32 as u8 == 1u8) by (bit_vector);
+    }
+    let i1 = items.drop_last();
+    assert(i1 =~= seq![items[0]]);
+    assert(i1.drop_last() =~= Seq::<Tree>::empty());
+    assert(items.last() == items[1] && i1.last() == items[0]);
+    reveal_with_fuel(sha_cost, 3);
+    reveal_with_fuel(items_cat, 3);
+    assert(items_cat(i1) =~= small_bytes(1));
+    assert(items_cat(items) =~= items_cat(i1) + small_bytes(val));
+    assert(sha_cost(i1, nb, pa, pb) == nb + pa + pb * 1);
+    assert(item_len(items[1]) == small_bytes(val).len());
+    assert(pb * (1 + small_bytes(val).len()) == pb * 1 + pb * small_bytes(val).len()) by (nonlinear_arith);
+}
